@@ -437,6 +437,10 @@ def synthetic_tables(rng, tmpdir, n_tables):
                 h = 7000000 + nconv
                 lines.append("%d||plain%d:%s||plain.cpp(%d)" % (h, nconv, " %d" * nconv, nconv))
                 hashes.append(h)
+            # formats whose only conversions are literal percent signs (formatting with an empty argument tuple is not the identity)
+            lines.append("7000100||pct: 100%% done, %%d left%%||pct.cpp(1)")
+            lines.append("7000101||%%||pct.cpp(2)")
+            hashes += [7000100, 7000101]
         if t % 2:
             rng.shuffle(lines)
         junk = ["", "no separators here", "12x||bad hash||f.c(1)", "||missing hash||f.c(2)", "5||only two fields"]
@@ -623,6 +627,11 @@ def run(run, model, proof):
                 for tag in (T_TRACE, T_BIN, 0x1234):
                     es = [mk_entry(rng, gen_data(rng, nbytes), tag=tag, h=7000000 + nconv)]
                     check_spec(run, model, t0, mk_header(rng, wf_size(rng, es)), es, "args", also_raw=False)
+        for hp in (7000100, 7000101):
+            for nbytes in range(0, 10):
+                for tag in (T_TRACE, T_BIN):
+                    es = [mk_entry(rng, gen_data(rng, nbytes), tag=tag, h=hp)]
+                    check_spec(run, model, t0, mk_header(rng, wf_size(rng, es)), es, "args:percent-only", also_raw=False)
         # lookups: every string of every table once exact, once partial
         for t in every:
             for (hv, _f, _l) in (t.tbl if thorough else rng.sample(t.tbl, min(len(t.tbl), 120))):
